@@ -9,6 +9,13 @@ open H3.Varint H3.Gen.Consts H3.Gen.WriteBuf
 theorem segsRemaining_eq (cs : List Bytes) : segsRemaining cs = cs.flatten.length := by
   simp [segsRemaining, List.length_flatten]
 
+/-- the translator's reading of the source: the DATA length field and `WriteBuf::remaining` take
+    `remaining()` of the payload, not the length of its first chunk (these two fail to build when
+    `tools/extract.py` reads `b.chunk().len()` there) -/
+theorem dataLen_source (cs : List Bytes) : segsLenBy DATA_LEN_SOURCE cs = segsRemaining cs := rfl
+theorem remaining_source (cs : List Bytes) :
+    segsLenBy WRITEBUF_REMAINING_SOURCE cs = segsRemaining cs := rfl
+
 theorem segsChunk_prefix (cs : List Bytes) : ∃ t, cs.flatten = segsChunk cs ++ t := by
   induction cs with
   | nil => exact ⟨[], rfl⟩
@@ -80,7 +87,7 @@ theorem flat_pay (w : WBC) : w.flat.pay = w.pay.flatten := by
 
 theorem flat_remaining (w : WBC) : w.flat.remaining = w.remaining := by
   unfold WB.remaining WBC.remaining
-  rw [flat_pay, segsRemaining_eq]
+  rw [flat_pay, remaining_source, segsRemaining_eq]
   rfl
 
 /-- the segmented buffer's chunk is a prefix of the flat buffer's -/
@@ -110,6 +117,7 @@ theorem chunkC_ne_nil (w : WBC) (hwf : w.flat.WF) (h : w.flat.view ≠ []) : w.c
 theorem advance_flat (w : WBC) (cnt : Nat) (hc : cnt ≤ w.remaining) :
     ∃ w', w.advance cnt = some w' ∧ w.flat.advance cnt = some w'.flat := by
   unfold WBC.remaining at hc
+  rw [remaining_source] at hc
   unfold WBC.advance WB.advance
   cases hp : w.payload with
   | none =>
@@ -214,7 +222,7 @@ theorem put_payload_irrelevant (w : WB) (bs : Bytes) (p : Option Bytes) :
 
 theorem dataHeaderC_eq (segs : List Bytes) : dataHeaderC segs = encodeFrame (.data segs.flatten) := by
   unfold dataHeaderC encodeFrame
-  rw [segsRemaining_eq]
+  rw [dataLen_source, segsRemaining_eq]
 
 /-- the conversion sees only the flattened payload -/
 theorem fromDataC_flat (segs : List Bytes) :
